@@ -7,6 +7,7 @@
    grammar rejects yields Err.  PARTIAL: the statement for all conforming token trees at once
    is not proved. *)
 From XdrModel Require Import Walk Check Grammar.
+From XdrProofs Require Import MoreProofs.
 Open Scope string_scope.
 Open Scope list_scope.
 
@@ -15,6 +16,14 @@ Theorem C14_reject :
   forall text, parse xdr_grammar (parse_fuel text) text = PFail -> model_ast text = EErr "parse".
 Proof. intros text H. unfold model_ast. now rewrite H. Qed.
 Print Assumptions C14_reject.
+
+(* for EVERY Ast (inside the supported subset or not) the emitters return Ok or Err; their only
+   panic is the `unreachable!("unexpected fixed length string")` of print_decode_array
+   (finding F11) *)
+Theorem C14_emitters_panic_site :
+  forall (A : ast) (w : string), gen A = EPanic w -> w = "from.rs:print_decode_array".
+Proof. exact gen_panic_site. Qed.
+Print Assumptions C14_emitters_panic_site.
 
 (* StructField::new: total on every shape of data_field; it panics exactly when the field's
    name is spelled like a primitive type (finding F11) *)
